@@ -54,6 +54,9 @@ def classify_all(model):
                     raise AnalysisError('UNDECIDED: %s on %r: %s' % (disp, v, o))
             kinds |= {c[len('visit_'):] for c in chosen}
             res[repr(v)] = kinds
+        if not any(res.values()):
+            from ..model import LostAnchor
+            raise LostAnchor('%s no longer finds its handler through getattr(self, "visit_<Kind>") / self.visit_<Kind>(): the dispatch cannot be observed' % disp)
         out[disp] = res
     # 2. util.is_constant_node(node, K)
     res = {}
@@ -140,52 +143,71 @@ def run(model, rep):
                  ('C17.COST', 'a rename the cost model approves never makes the printed program longer (enumerated over reference forms x name lengths x use counts)'),
                  ('C17.HOIST', 'hoisting a literal never makes the printed program longer (enumerated over literal kinds x lengths x use counts)'), ('C17.SORT', 'bindings sorted by descending mention count')]:
         rep.rule(r, t)
-    check_classifiers(model, rep, 'C17', 'C17.K1')
-    rep.floor('C17.K1', 3)
-
-    # ---------------- GATE
-    # the assignment loop abstractly evaluated: rename(name) exactly when should_rename(name) holds or the original name was taken
-    from . import assign_enum
-    na = model.func('python_minifier.rename.renamer.NameAssigner.__call__')
-    groups = {'profitable': [], 'forced': [], 'pinned': []}
-    n_sc = 0
-    for sc, obs in assign_enum.enumerate_loop(model):
-        n_sc += 1
-        want = assign_enum.expect_rename(sc)
-        g = 'profitable' if sc['profitable'] else 'forced' if want else 'pinned'
-        for o in obs:
-            did = bool(o['renamed_to'])
-            if did != want:
-                groups[g].append('%s binding %s although %s' % (o['where'], 'renamed to %s' % o['renamed_to'] if did else 'not renamed',
-                                                              ', '.join('%s=%s' % kv for kv in sorted(sc.items()))))
-            elif did and (len(o['renamed_to']) != 1 or o['renamed_to'][0] not in o['asked']):
-                groups[g].append('%s binding renamed to %s but profitability was asked for %s' % (o['where'], o['renamed_to'], o['asked']))
-            elif not did and o['pinned'] < 1:
-                groups[g].append('%s binding neither renamed nor pinned (%s)' % (o['where'], sc))
-    texts = {'profitable': 'should_rename(name) true -> rename(that name)', 'forced': 'unprofitable, but the original name was given away -> renamed anyway',
-             'pinned': 'unprofitable and the original name still usable (or not a NameBinding, or reserved for itself) -> pinned, not renamed'}
-    for g in ('profitable', 'forced', 'pinned'):
-        rep.check(not groups[g], 'C17.GATE', na.loc(), 'assignment loop, %s scenarios (of %d)' % (g, n_sc), texts[g],
-                  'the name-assignment loop deviates from the cost gate: %s' % '; '.join(groups[g][:3]), key='C17.GATE|loop|' + g, cells=2 * sum(1 for sc_ in assign_enum.scenarios() if ('profitable' if sc_['profitable'] else 'forced' if assign_enum.expect_rename(sc_) else 'pinned') == g))
-    rep.floor('C17.GATE', 3)
+    # ---------------- E2E: the real minify() with one size option off / on, printed by the repository's printer
+    from . import size_e2e
+    rep.rule('C17.E2E', 'end to end on probe modules: each size option on vs off, everything else equal - the printed module never gets longer')
+    size_e2e.run(model, rep, 'C17.E2E', rep.tier)
 
     # ---------------- (the direction of the profitability comparisons and the completeness of the cost terms are decided by C17.COST below)
     # a fold is kept only where the text gets strictly shorter: decided by running the transform and the printer abstractly (shared with C07)
     from .c07 import enum as fold_enum
     fold_enum(model, rep, rule='C17.FOLD', only_length=True)
 
-    # ---------------- COST: the model's decision against the printed size
-    from . import cost_enum
-    cost_enum.run(model, rep)
-    cost_enum.run_hoist(model, rep)
+    # ---------------- white-box rules: written against internal functions / classes (cost functions, assignment loop, dispatchers); not evaluated when
+    # those do not exist under their names - C17.E2E / C17.FOLD decide the behaviour end to end
+    def k1():
+        check_classifiers(model, rep, 'C17', 'C17.K1')
+        rep.floor('C17.K1', 3)
 
-    # ---------------- SORT: rename() evaluated on one scope with four bindings of different mention counts
-    named, counts = assign_enum.sort_world(model)
-    order = [n_ for (n_, _nm) in named]
-    want = sorted(counts, key=lambda k: -counts[k])
-    rnf = model.func('python_minifier.rename.renamer.rename')
-    rep.check(order == want, 'C17.SORT', rnf.loc(), 'bindings named in the order %s (new mentions %s)' % (order, [counts[k] for k in order]), 'descending new-mention count',
-              'bindings are not processed by descending new-mention count (short names go to rarely used bindings): %s' % [(k, counts[k]) for k in order], key='C17.SORT')
-    lens = [len(nm) for (_n, nm) in named]
-    rep.check(lens == sorted(lens), 'C17.SORT', rnf.loc(), 'names handed out: %s' % [nm for (_n, nm) in named], 'shortest names first', 'the most used bindings do not receive the shortest names', key='C17.SORT|use')
-    rep.floor('C17.SORT', 2)
+
+    def gate():
+        # ---------------- GATE
+        # the assignment loop abstractly evaluated: rename(name) exactly when should_rename(name) holds or the original name was taken
+        from . import assign_enum
+        na = model.func('python_minifier.rename.renamer.NameAssigner.__call__')
+        groups = {'profitable': [], 'forced': [], 'pinned': []}
+        n_sc = 0
+        for sc, obs in assign_enum.enumerate_loop(model):
+            n_sc += 1
+            want = assign_enum.expect_rename(sc)
+            g = 'profitable' if sc['profitable'] else 'forced' if want else 'pinned'
+            for o in obs:
+                did = bool(o['renamed_to'])
+                if did != want:
+                    groups[g].append('%s binding %s although %s' % (o['where'], 'renamed to %s' % o['renamed_to'] if did else 'not renamed',
+                                                                  ', '.join('%s=%s' % kv for kv in sorted(sc.items()))))
+                elif did and (len(o['renamed_to']) != 1 or o['renamed_to'][0] not in o['asked']):
+                    groups[g].append('%s binding renamed to %s but profitability was asked for %s' % (o['where'], o['renamed_to'], o['asked']))
+                elif not did and o['pinned'] < 1:
+                    groups[g].append('%s binding neither renamed nor pinned (%s)' % (o['where'], sc))
+        texts = {'profitable': 'should_rename(name) true -> rename(that name)', 'forced': 'unprofitable, but the original name was given away -> renamed anyway',
+                 'pinned': 'unprofitable and the original name still usable (or not a NameBinding, or reserved for itself) -> pinned, not renamed'}
+        for g in ('profitable', 'forced', 'pinned'):
+            rep.check(not groups[g], 'C17.GATE', na.loc(), 'assignment loop, %s scenarios (of %d)' % (g, n_sc), texts[g],
+                      'the name-assignment loop deviates from the cost gate: %s' % '; '.join(groups[g][:3]), key='C17.GATE|loop|' + g, cells=2 * sum(1 for sc_ in assign_enum.scenarios() if ('profitable' if sc_['profitable'] else 'forced' if assign_enum.expect_rename(sc_) else 'pinned') == g))
+        rep.floor('C17.GATE', 3)
+
+
+    def cost():
+        # ---------------- COST: the model's decision against the printed size
+        from . import cost_enum
+        cost_enum.run(model, rep)
+        cost_enum.run_hoist(model, rep)
+
+
+    def sort():
+        from . import assign_enum
+        # ---------------- SORT: rename() evaluated on one scope with four bindings of different mention counts
+        named, counts = assign_enum.sort_world(model)
+        order = [n_ for (n_, _nm) in named]
+        want = sorted(counts, key=lambda k: -counts[k])
+        rnf = model.func('python_minifier.rename.renamer.rename')
+        rep.check(order == want, 'C17.SORT', rnf.loc(), 'bindings named in the order %s (new mentions %s)' % (order, [counts[k] for k in order]), 'descending new-mention count',
+                  'bindings are not processed by descending new-mention count (short names go to rarely used bindings): %s' % [(k, counts[k]) for k in order], key='C17.SORT')
+        lens = [len(nm) for (_n, nm) in named]
+        rep.check(lens == sorted(lens), 'C17.SORT', rnf.loc(), 'names handed out: %s' % [nm for (_n, nm) in named], 'shortest names first', 'the most used bindings do not receive the shortest names', key='C17.SORT|use')
+        rep.floor('C17.SORT', 2)
+    rep.optional(['C17.K1'], ['C17.E2E'], k1)
+    rep.optional(['C17.GATE'], ['C17.E2E'], gate)
+    rep.optional(['C17.COST', 'C17.HOIST'], ['C17.E2E'], cost)
+    rep.optional(['C17.SORT'], ['C17.E2E'], sort)
